@@ -95,6 +95,10 @@ func (api *API) encodeBasedOnType(
 			return api.encodeStruct(ctx, elemValue, elemValue.Interface(), elemValue.Type(), ts, opts)
 		case reflect.Array:
 			return api.encodeArray(ctx, elemValue, ts, opts)
+		default:
+			// a pointer to anything else (number, bool, string, slice, map, interface, another pointer) is written like
+			// the value it points to: this is what the decoder reads for such a pointer
+			return api.encodeBasedOnType(ctx, elemValue, elemValue.Interface(), elemValue.Type(), ts, opts)
 		}
 
 	case reflect.Struct:
